@@ -44,6 +44,8 @@ def run(prop, tier, seed, replay=None):
     live = ["equal", "behind"] if quick else ["equal", "behind", "join", "branches"]
     safety = ["equal"] if quick else ["equal", "behind", "join", "branches"]
     runs = [("Sync.%s.live.cfg" % s, 1500) for s in live] + [("Sync.%s.safety.cfg" % s, 1500) for s in safety]
+    if not quick:
+        runs.append(("Sync.branches.safety2.cfg", 1500))  # second fault mix of the largest scenario (duplicates)
     cover = {}
     for cfg, to in runs:
         m = vlib.tlc("MCSync", cfg, timeout=to, workers=min(12, vlib.NCPU), coverage=(not quick and "safety" in cfg))
